@@ -817,3 +817,6 @@ LEVEL_NOTE = (
     'never touched: each case declares its own abstract root interface in a scratch package.'
 )
 TECHNIQUE = 'property-based testing (Hypothesis) vs reference fold; exhaustive import-order enumeration per generated provider set in forked children'
+
+# coverage-guided (atheris) pass of the thorough tier: (campaign, libFuzzer runs, instrumented module prefixes)
+FUZZ = [('config', 30000, ['forml.setup'])]
